@@ -42,7 +42,7 @@ def run(ctx):
         for s in walk_no_nested(f.node):
             # pattern A:  if <bound> is None: v = <int>       pattern B:  v = <int a> if is_start else <int b>  (None parameter)
             if isinstance(s, ast.If) and len(s.body) == 1 and isinstance(s.body[0], ast.Assign) and intlit(s.body[0].value)[0] \
-                    and intlit(s.body[0].value)[1] is not None and not s.orelse and isinstance(s.test, ast.Compare) and isinstance(s.test.ops[0], ast.Is):
+                    and intlit(s.body[0].value)[1] is not None and isinstance(s.test, ast.Compare) and isinstance(s.test.ops[0], ast.Is):
                 var = dotted(s.body[0].targets[0]); lit = intlit(s.body[0].value)[1]
                 tested = norm(s.test.left)
                 which = 'start' if 'start' in var else 'stop' if 'stop' in var else None
@@ -81,7 +81,7 @@ def run(ctx):
     dead_ends = [x for x in g.nodes if x.kind == 'stmt' and isinstance(x.ast, ast.Assert) and isinstance(x.ast.test, ast.Constant) and not x.ast.test.value]
     for sv in ('neg', 'zero', 'pos'):
         for ev_ in ('neg', 'zero', 'pos'):
-            m = Machine(g, ['start_value', 'stop_value', 'len', 's0'], effect, atom)
+            m = Machine(g, ['start_value', 'stop_value', 'len', 's0'], effect, atom, resolve=True)
             IN = m.run([{'start_value': sv, 'stop_value': ev_, 'len': 'unset', 's0': sv}])
             sts = m.states_at(IN, g.exit)
             ok = bool(sts) and all(e['len'] == 'set' for e in sts) and not any(d.id in IN for d in dead_ends)
